@@ -161,7 +161,7 @@ class _PokTranslator(_util.OverrideableDataDesc):
             if param.name in kwargs:
                 if pos < len(args):
                     args.insert(pos, kwargs.pop(param.name))
-            elif param.default == param.empty:
+            elif param.default is param.empty:
                 missing.append(param.name)
             elif pos < len(args):
                 args.insert(pos, param.default)
@@ -317,7 +317,7 @@ def _autokwoargs(exceptions, func):
     for param in sig.parameters.values():
         if (
                 param.kind == param.POSITIONAL_OR_KEYWORD
-                and param.default != param.empty
+                and param.default is not param.empty
             ):
             try:
                 exceptions.remove(param.name)
